@@ -12,6 +12,7 @@ package rules
 
 import (
 	"go/token"
+	"sync"
 
 	"golang.org/x/tools/go/ssa"
 
@@ -133,9 +134,14 @@ type callSiteIndex struct {
 	sites map[*ssa.Function][]*ssa.Call
 }
 
-var callSiteCache = map[*core.Program]*callSiteIndex{}
+var (
+	callSiteCache = map[*core.Program]*callSiteIndex{}
+	callSiteMu    sync.Mutex
+)
 
 func callSitesOf(r *core.Run, fn *ssa.Function) []*ssa.Call {
+	callSiteMu.Lock()
+	defer callSiteMu.Unlock()
 	idx := callSiteCache[r.Prog]
 	if idx == nil {
 		idx = &callSiteIndex{sites: map[*ssa.Function][]*ssa.Call{}}
